@@ -757,6 +757,9 @@ class _Algorithm:
 
         """
         self._deprecate_pad_kwargs(**kwargs)
+        if weights is not None and self._check_finite:
+            # non-finite values would be hidden by the conversion to a boolean array below
+            _check_optional_array(self._size, weights, check_finite=True)
         weight_array = _check_optional_array(
             self._size, weights, dtype=bool, check_finite=self._check_finite
         )
